@@ -819,7 +819,7 @@ def run(ctx):
     ctx.set_budget(60, 800)
     if not IS_ROOT:
         ctx.assume("not running as root: chown only to the current uid/gid")
-    _explore_in_slices(ctx, case_st, lambda c: execute(ctx, c), ctx.scale(1200, 36000), shrink=True, slice_size=1200)
+    _explore_in_slices(ctx, case_st, lambda c: execute(ctx, c), ctx.scale(1500, 40000), shrink=True, slice_size=1500)
 
 
 def replay(ctx, case):
